@@ -7,27 +7,6 @@
 import Bubus.Proofs.Stable
 namespace Bubus
 
-def tookOn (w : World) (b : BId) (i : IId) : Bool :=
-  match (w.inst i).took with | some (b', _) => b' == b | none => false
-
-def actOn (w : World) (b : BId) (p : Proc) : Bool :=
-  match w.act p with | some A => A.bus == b | none => false
-
-/-- events of bus `b` in hand: taken by the run loop and not yet begun, in an open activation of the run loop,
-    taken by an awaiting handler, in an open inline activation -/
-def RL.isTook : RL → Bool | .took _ => true | _ => false
-
-/-- the accounting view of one bus -/
-def acctB (B : Bus) : List EId × Nat × Bool := (B.queue, B.unfinished, B.rl.isTook)
-
-def rlPart (w : World) (b : BId) : Nat :=
-  (if (w.bus b).rl.isTook then 1 else 0) + (if actOn w b (.rl b) then 1 else 0)
-
-def instOf (w : World) (b : BId) (i : IId) : Nat :=
-  (if tookOn w b i then 1 else 0) + (if actOn w b (.inst i) then 1 else 0)
-
-def hand (w : World) (b : BId) : Nat := rlPart w b + ((List.range w.ni).map (instOf w b)).sum
-
 structure AInv (w : World) : Prop where
   acc : ∀ b, (w.bus b).queue.length + hand w b ≤ (w.bus b).unfinished
   rlBus : ∀ b A, w.act (.rl b) = some A → A.bus = b
